@@ -20,6 +20,43 @@ def pipeline(job):
         return (mid, 'ok', rc, [c for c, a in probs], [], '')
     return (mid, 'ACCEPTED_INCONSISTENT', rc, [c for c, a in probs], [list(x) for x in v[:8]], out[-1200:])
 
+def scenarios():
+    """coordinated multi-object inconsistencies that no one- or two-field change reaches, prepared with debugfs on corpus images:
+    -> [(case id, image bytes)]"""
+    from xck.image import Image
+    out = []
+    DBG = tool('debugfs')
+    for base in ('ext4', 'ext2', 'ext4csum'):
+        d0 = fsweep.base_data(base); rl = Image(d0).inode(2).i_links_count
+        scen = {
+            # two directories that are each other's parent and only reference, cut off from the root (link counts and '..' all agree)
+            'detached-dir-cycle-2': ['mkdir /A', 'mkdir /A/B', 'ln /A /A/B/A', 'unlink /A/..', 'ln /A/B /A/..', 'sif /A/B links_count 3', 'sif / links_count %d' % rl, 'unlink /A'],
+            # three directories in a ring
+            'detached-dir-cycle-3': ['mkdir /A', 'mkdir /A/B', 'mkdir /A/B/C', 'ln /A /A/B/C/A', 'unlink /A/..', 'ln /A/B/C /A/..', 'sif /A/B/C links_count 3', 'sif / links_count %d' % rl, 'unlink /A'],
+            # a directory that is its own parent and holds the only reference to itself
+            'detached-dir-self-loop': ['mkdir /A', 'ln /A /A/self', 'unlink /A/..', 'ln /A /A/..', 'sif /A links_count 3', 'sif / links_count %d' % rl, 'unlink /A'],
+            # a regular file whose only directory entry is removed while its link count stays 1 (orphan without being on the orphan list)
+            'unreferenced-file': ['unlink /one', 'unlink /hard'],
+            # a subtree cut off by removing the entry of its top directory only
+            'detached-subtree': ['unlink /d1', 'sif / links_count %d' % (rl - 1)],
+        }
+        for name, cmds in scen.items():
+            p = fsweep.worker_path('scen')
+            with open(p, 'wb') as f: f.write(d0)
+            sp = p + '.dbg'; open(sp, 'w').write('\n'.join(cmds) + '\n')
+            run([DBG, '-w', '-f', sp, p], timeout=60)
+            out.append(('scenario/%s/%s' % (base, name), open(p, 'rb').read()))
+    return out
+
+def scen_pipeline(job):
+    cid, data = job
+    p = fsweep.worker_path()
+    with open(p, 'wb') as f: f.write(data)
+    rc, out = run([E2FSCK, '-fn', p], timeout=30)
+    if rc != 0: return (cid, 'rejected', rc, [], '')
+    v = xcheck(data)
+    return (cid, 'ACCEPTED_INCONSISTENT' if v else 'ok', rc, [list(x) for x in v[:8]], out[-1200:])
+
 def classify(codes, viol, out):
     """root-cause classes that are genuine, recorded defects of the tree (see known_findings.json / DESIGN.md)"""
     vc = set(x[1] for x in viol)
@@ -38,7 +75,7 @@ def main(tier, only=None):
     ck = Check('C02', tier, 'fault_enumeration')
     E2FSCK = tool('e2fsck')
     fsweep.init_scratch()
-    bases = [b for b in only if b != 'geom'] if only else (fsweep.QUICK_BASES if tier == 'quick' else fsweep.SWEEP_BASES)
+    bases = [b for b in only if b not in ('geom', 'scen')] if only else (fsweep.QUICK_BASES if tier == 'quick' else fsweep.SWEEP_BASES)
     ck.set_deadline(240 if tier == 'quick' else 2700)
     total = accepted = 0
     per = {}; viol_classes = {}
@@ -60,6 +97,16 @@ def main(tier, only=None):
         accepted += gacc
         per['geometry_family'] = {'images': len(gb), 'per_inode_mutants': len(gj), 'accepted_by_e2fsck_fn': gacc}
         if len(gb) < 4: ck.violation('geometry-family:vacuous', {'what': 'fewer than 4 geometry images could be built with the tree\'s mke2fs/debugfs', 'built': gb})
+    if not only or 'scen' in only:
+        sj = scenarios()
+        nincons = 0
+        for cid, st, rc, v, out in pmap(scen_pipeline, sj, chunksize=1):
+            total += 1
+            if st == 'rejected': nincons += 1; continue
+            accepted += 1
+            if st == 'ACCEPTED_INCONSISTENT':
+                ck.violation(cid, {'scenario': cid, 'e2fsck_fn_exit': rc, 'xck_violations': v, 'e2fsck_output': out, 'root_cause_class': 'detached-directory-cycle' if 'cycle' in cid or 'self-loop' in cid else None})
+        per['scenarios'] = {'prepared': len(sj), 'rejected_by_e2fsck_fn': nincons}
     for name in bases:
         r0 = pipeline(('%s/k0' % name, name, []))
         if r0[1] != 'ok':
@@ -102,7 +149,7 @@ def main(tier, only=None):
         if ck.expired():
             ck.add(exhaustive=False); break
     ck.add(evaluations=total, distinct_nontrivial=accepted, states=total, transitions=total, traces_validated_against_impl=total,
-           rule='geometry family: runtime-built csum filesystems with inode tables of 1..18 blocks per group and inodes in use in every group x every in-use inode x {checksum-only damage, link count +1 resealed, i_blocks +2 resealed}; then the same mutant space as C01 plus, for every block pointer of an inode or mapping block, a "+settle" variant in which the independent reader recomputes block bitmaps, free counts, i_blocks and checksums around the new pointer (so that only the range/ownership invariant is broken); each mutant: e2fsck -fn, and if it exits 0 the independent checker xck.check (groups R,A,L,S,K) must find nothing; '
+           rule='scenario family: coordinated multi-object inconsistencies prepared with debugfs (detached directory cycles of length 1-3, unreferenced file, detached subtree) on three corpus images; geometry family: runtime-built csum filesystems with inode tables of 1..18 blocks per group and inodes in use in every group x every in-use inode x {checksum-only damage, link count +1 resealed, i_blocks +2 resealed}; then the same mutant space as C01 plus, for every block pointer of an inode or mapping block, a "+settle" variant in which the independent reader recomputes block bitmaps, free counts, i_blocks and checksums around the new pointer (so that only the range/ownership invariant is broken); each mutant: e2fsck -fn, and if it exits 0 the independent checker xck.check (groups R,A,L,S,K) must find nothing; '
                 'distinct_nontrivial = mutants that e2fsck accepted (only those exercise the oracle)', samples=sample[:6])
     ck.cov['bases'] = per
     ck.assumptions += ['xck (tools/xck, written from the format description, cross-validated against e2fsck on the repo\'s f_* images by tools/xck_calibrate.py) is the trusted oracle',
